@@ -33,6 +33,7 @@ ONE = {
     'C12c': 'the SIGTERM handler also kills the helper process of every registered context: the workers created inside a context lose the only process that would stop them and outlive the server',
     'C16c': 'ProcessWorker._get_result takes over the reported user_state only when it is not None: a child whose last assignment is None leaves the parent with the stale value',
     'C01d': 'ThreadWorker._run keeps the outcome in a local and assigns self._result as the last statement of the finally, after _cleanup(): a terminate landing in the clean-up, or a clean-up that raises, leaves a dead worker with has_error None',
+    'C10d': 'recv_msg reads the 4-byte length prefix with one recv(4): a read boundary inside the header raises a spurious ConnectionClosedError on a live connection (the defect repaired by 3823ca8, reintroduced)',
     'C11d': 'the accept loop treats a client that hangs up inside its header as the empty request (header = None): on a close_on_none server one faulty client shuts the whole server down',
     'C20d': '_recv_exactly gets a fast path and fills a preallocated bytearray with recv_into for short reads, without the end-of-stream check: a FIN in mid-message makes the constructor spin for ever',
     'C05d': 'the three do_work loops drop the list() around the deep copy of the default args: tuple defaults stay tuples and the slice assignment kills the worker on its first input',
